@@ -502,6 +502,84 @@ pub fn fuzz_case(tape: &[u32]) -> Option<(String, Value)> {
     }
 }
 
+/// Duplicate leg (small deterministic lattice). The statement makes an option's meaning independent of where it stands; when an
+/// option is written twice with different values, *some* spelling has to win (or the invocation is rejected), and which one
+/// cannot depend on the option: `X = a, X = b` expands like `X = a` alone or like `X = b` alone, the same way for every option
+/// of every target and macro name. (Which way is not prescribed.)
+fn duplicates_leg(ctx: &mut Ctx) -> bool {
+    let fn_item = "fn foo(deps: &impl Bar, x: i32) -> i32 { x }";
+    let mod_item = "mod m { pub fn foo(deps: &impl Bar, x: i32) -> i32 { x } }";
+    let trait_item = "trait Tr { fn m(&self, x: i32) -> i32; }";
+    // (target, item, attribute prefix, option, value 1, value 2)
+    let mut points: Vec<(&str, &str, &str, &str, &str, &str)> = vec![];
+    for (target, item) in [("fn", fn_item), ("mod", mod_item)] {
+        points.push((target, item, "Foo", "no_deps", "true", "false"));
+        points.push((target, item, "Foo, unimock, mock_api = M", "export", "true", "false"));
+        points.push((target, item, "Foo, mock_api = M", "unimock", "true", "false"));
+        points.push((target, item, "Foo", "mockall", "true", "false"));
+        points.push((target, item, "Foo, unimock", "mock_api", "MockA", "MockB"));
+        points.push((target, item, "pub Foo, unimock, export", "mock_api", "MockA", "MockB"));
+    }
+    points.push(("trait", trait_item, "", "unimock", "true", "false"));
+    points.push(("trait", trait_item, "", "mockall", "true", "false"));
+    points.push(("trait", trait_item, "unimock", "mock_api", "MockA", "MockB"));
+    points.push(("trait", trait_item, "", "delegate_by", "ref", "Self"));
+    points.push(("trait", trait_item, "TrImpl", "delegate_by", "ref", "DelegateTr"));
+    let mut winners: Vec<(String, &'static str)> = vec![];
+    for mac in e1::MACROS {
+        for (target, item, prefix, opt, v1, v2) in &points {
+            for (a, b) in [(v1, v2), (v2, v1)] {
+                let join = |parts: &[String]| parts.iter().filter(|p| !p.is_empty()).cloned().collect::<Vec<_>>().join(", ");
+                let dup = join(&[prefix.to_string(), format!("{opt} = {a}"), format!("{opt} = {b}")]);
+                let first = join(&[prefix.to_string(), format!("{opt} = {a}")]);
+                let last = join(&[prefix.to_string(), format!("{opt} = {b}")]);
+                let run = |attr: &str| e1::outcome(mac, attr, item).unwrap_or_else(|e| crate::ev::inconclusive(&format!("HARNESS: {e}")));
+                let (d, f, l) = (run(&dup), run(&first), run(&last));
+                ctx.count_eval();
+                let toks = |o: &Outcome| match o {
+                    Outcome::Accepted(_, ts) => Some(crate::tok::toks(ts.clone())),
+                    _ => None,
+                };
+                if matches!(d, Outcome::Panic(_)) || matches!(f, Outcome::Panic(_)) || matches!(l, Outcome::Panic(_)) {
+                    continue; // C15's business
+                }
+                let what = format!("#[{mac}({dup})] on a {target}");
+                // (a rejected invocation compares equal to a rejected one: the winning spelling may itself be invalid here)
+                let (df, dl) = (toks(&d) == toks(&f), toks(&d) == toks(&l));
+                let winner = match (toks(&f) == toks(&l), df, dl) {
+                    (true, _, _) => {
+                        ctx.class("duplicates:values_do_not_differ_here");
+                        continue;
+                    }
+                    (false, true, false) => "first",
+                    (false, false, true) => "last",
+                    _ if toks(&d).is_none() => "rejected",
+                    _ => {
+                        ctx.violation(
+                            &format!("an option written twice resolves to neither of its spellings: {what} expands unlike `{first}` and unlike `{last}`"),
+                            &json!({"engine": "E1", "kind": "duplicate", "macro": mac, "attr": dup, "first": first, "last": last, "item": item}),
+                        );
+                        return false;
+                    }
+                };
+                ctx.class(&format!("duplicates:{winner}_wins"));
+                ctx.nontrivial(&("duplicate", mac, &dup, item));
+                winners.push((what, winner));
+            }
+        }
+    }
+    if let Some((w0, first_kind)) = winners.first().cloned() {
+        if let Some((w, kind)) = winners.iter().find(|(_, k)| *k != first_kind) {
+            ctx.violation(
+                &format!("options written twice are not resolved the same way everywhere: in {w0} the {first_kind} spelling wins, in {w} the {kind} one"),
+                &json!({"engine": "E1", "kind": "duplicate-uniformity", "a": w0, "b": w}),
+            );
+            return false;
+        }
+    }
+    true
+}
+
 pub fn run(ctx: &mut Ctx) {
     ctx.rule = "cases = metamorphic pairs (two attribute spellings / macro variants for one generated fn|mod|trait item) for the relations bare==true, \
                 false==omitted, order independence, variant==option, plus option x target acceptance-matrix points; a pair is non-trivial when both sides are \
@@ -509,8 +587,12 @@ pub fn run(ctx: &mut Ctx) {
         .into();
     ctx.assumptions.push("E1 models the facade's feature switch as the `_unimock` macro variants; the facade mapping itself is observed by the E2 leg (C10)".into());
     ctx.assumptions.push("don't-cares: `no_deps` on a module, the undocumented `debug` option".into());
+    ctx.assumptions.push("duplicate leg: which spelling of a twice-written option wins is not prescribed, only that it is one of them (or a rejection) and the same rule for every option, target and macro name".into());
     let cases = ctx.n(150_000, 3_000_000);
     if !run_tapes_par(ctx, 17, cases, 300, one) {
+        return;
+    }
+    if !duplicates_leg(ctx) {
         return;
     }
     crate::fuzzrun::replay_corpus(ctx, "c17_metamorphic", fuzz_case);
@@ -524,6 +606,11 @@ pub fn run(ctx: &mut Ctx) {
 
 pub fn replay(ctx: &mut Ctx, v: &Value) {
     use super::s;
+    if s(v, "kind").starts_with("duplicate") {
+        // the lattice is small and deterministic: replaying a point of it means running it again
+        duplicates_leg(ctx);
+        return;
+    }
     ctx.count_eval();
     let r = if s(v, "kind") == "matrix" {
         check_matrix(&MatrixCase {
